@@ -339,7 +339,47 @@ def r6_canvases(rule, root=None):
             rule.ok("%s::begin_drag is idempotent while a drag is active" % ty)
         else:
             rule.bad("%s|begin_drag" % ty, "%s::begin_drag must not re-grab while a drag is active (the handle may only be stored when none is)" % ty, A.where(fn))
+        # the flag reports changes of the view and nothing else: it starts false and only collects the flags
+        # of the view-changing steps
+        fi = vfn(ty, "interact", root)
+        flag_lets = [s_ for s_ in A.find(fi["body"], "Let") if s_.get("mut") or (s_["pat"].get("mut") if isinstance(s_.get("pat"), dict) else False)]
+        tl = A.strip(A.stmt_expr(fi["body"]["stmts"][-1]) or {}) if fi["body"]["stmts"] else {}
+        fname = A.ident(tl)
+        inits = [s_ for s_ in A.find(fi["body"], "Let") if A.binding_name(s_["pat"]) == fname and s_.get("init") is not None] if fname else []
+        srcs = []
+        for a_ in A.walk(fi["body"]):
+            if isinstance(a_, dict) and a_.get("k") in ("Assign", "AssignOp", "Binary") and fname and str(txt(a_.get("left") or {})) == fname and a_.get("op", "=") in ("=", "|=", "||=", "|"):
+                if a_.get("k") == "Binary" and a_.get("op") != "|=":
+                    continue
+                srcs.append((a_.get("op", "="), A.strip(a_["right"])))
+        if fname and len(inits) == 1:
+            bad_src = [str(txt(r_)) for op_, r_ in srcs if not (op_ == "|=" and r_.get("k") == "MethodCall" and r_["method"] in ("drag", "zoom") and A.ident(A.strip(r_["recv"])) == "self")]
+            if str(txt(inits[0]["init"])) != "false":
+                rule.bad("%s|interact|flag-init" % ty, "%s::interact starts its `changed` flag from `%s`; it must start false and collect only the flags of drag and zoom (a new image size alone leaves the view bit-identical)" % (ty, txt(inits[0]["init"])), A.where(fi, inits[0]))
+            elif bad_src:
+                rule.bad("%s|interact|flag-src" % ty, "%s::interact folds `%s` into its `changed` flag; only the results of self.drag(..) and self.zoom(..) say whether the view changed" % (ty, bad_src[0]), A.where(fi))
+            else:
+                rule.ok("%s::interact: the flag starts false and collects only drag / zoom results" % ty, file=GUI, line=fi["ln"])
         fn = vfn(ty, "zoom", root)
+        # ... and the canvas's zoom reports exactly what the view's zoom reported
+        zc = [c_ for c_ in A.find(fn["body"], "MethodCall") if c_["method"] == "zoom" and str(txt(c_["recv"])) == "self.view"]
+        rets = [A.strip(r_["e"]) for r_ in A.find(fn["body"], "Return") if r_.get("e") is not None]
+        tl = A.strip(A.stmt_expr(fn["body"]["stmts"][-1]) or {}) if fn["body"]["stmts"] and not fn["body"]["stmts"][-1].get("semi") else None
+        outs = rets + ([tl] if tl is not None else [])
+
+        def is_view_flag(e_):
+            if e_.get("k") == "MethodCall" and e_ in zc:
+                return True
+            n_ = A.ident(e_)
+            if n_:
+                ls = [s_ for s_ in A.find(fn["body"], "Let") if A.binding_name(s_["pat"]) == n_ and s_.get("init") is not None]
+                return len(ls) == 1 and A.strip(ls[0]["init"]) in zc
+            return False
+
+        if len(zc) == 1 and outs and all(is_view_flag(e_) for e_ in outs):
+            rule.ok("%s::zoom returns the view's own changed flag" % ty, file=GUI, line=fn["ln"])
+        else:
+            rule.bad("%s|zoom|flag" % ty, "%s::zoom must return what self.view.zoom(..) returned on every path (found %s): the view compares the factor with 1, the scroll amount does not say whether anything changed" % (ty, [str(txt(e_)) for e_ in outs]), A.where(fn))
         if "self.view.zoom(((amount/100.0)).exp2(),pos_world)" in txt(fn["body"]) or "self.view.zoom((amount/100.0).exp2(),pos_world)" in txt(fn["body"]):
             rule.ok("%s::zoom: zero scroll is factor 1" % ty)
         else:
@@ -424,7 +464,7 @@ def run(ctx):
     ctx.guarded(r, r4_siblings)
     r = ctx.rule("R5", "yaw wraps and pitch clamps the whole sum", 3)
     ctx.guarded(r, r5_handles)
-    r = ctx.rule("R6", "canvases adopt the image size first, OR their flags, keep drags idempotent", 10)
+    r = ctx.rule("R6", "canvases adopt the image size first, OR their flags, keep drags idempotent", 14)
     ctx.guarded(r, r6_canvases)
     r = ctx.rule("R7", "zooming during a pan refreshes the handle's cached matrix", 4)
     ctx.guarded(r, r7_stale_handle)
